@@ -49,6 +49,7 @@ package rapidproto
 //@   decreases 13 - depth rank 2
 //@   note DisallowNilMessages: a message field is only ever skipped when the option is off
 //@   assert[disallow-nil-honoured] at `continue`: !opts.DisallowNilMessages
+//@   assert[only-message-fields-are-left-unset] at `continue`: f.Kind() == protoreflect.MessageKind
 //@   note an Any that cannot be generated (no type URL configured) is reported to the caller, which removes it
 //@   returns-result-of GeneratorOptions.genAny
 //@   loop 1: invariant 0 <= i
